@@ -11,11 +11,12 @@ ENGINES = [dict(name='spf', c_sources=['spf_h.c'], extract='Extract/Extract_spf.
 RULE = ('cases = (sender domain, client address v4/v6, sender, HELO, reverse name, zone); zone = TXT/A/AAAA/MX/PTR answers or injected errors per name '
         'over a small universe of names. Streams: records drawn from the SPF grammar (700, one third mutated bytewise), the same with macros (500), '
         'records with 8..13 DNS querying terms flat / nested by include / chained by redirect / cyclic / include+redirect trees (600), '
+        'zones whose records are all inside the strict macro-free RFC 7208 grammar, compared with the reference evaluator Spec/SpfRfc.v (1500), '
         'random macro strings in domain-specs, modifiers and explanation texts (900), arbitrary bytes in bad tokens and explanation texts (500), plus the corpus '
-        '(replays of F-C11-1..8 and boundary cases). non-trivial = the implementation made at least two resolver calls; distinct by case text')
+        '(replays of F-C11-1..9 and boundary cases). non-trivial = the implementation made at least two resolver calls; distinct by case text')
 TRUSTED_BASE = [
     'Coq 8.16.1 kernel (coqc; coqchk in thorough); vm_compute in the non-vacuity example and for the literal pieces of the Received-SPF header; no native_compute',
-    'axioms: none (Print Assumptions: Closed under the global context for all seven theorems)',
+    'axioms: none (Print Assumptions: Closed under the global context for all nine theorems)',
     'translator tools/translators/spf.py: regexes over qsmtpd/spf.c and include/qsmtpd/antispam.h produce coq/Gen/GenSpf.v (result codes, DNS term limit and the six places it is tested, '
     'mechanism chain, MX/PTR/CIDR/prefix/length limits, both sanitiser expressions, result[] and the 26 literal pieces of spfreceived())',
     'hand-written models coq/Model/Spf.v (core), SpfBase.v (strtol/strtoul/inet_pton as in glibc, ip4/ip6_matchnet, domainvalid), SpfMacro.v (macro expansion, functional) '
@@ -32,7 +33,8 @@ ASSUMPTIONS = [
     'resolver answers are functions of the name (one zone per evaluation); ask_dnsmx() returns entries with at least one address',
     'Received-SPF: heloname, HELO, sender and client address text are printable ASCII (sess_ok); they come from the session, not from DNS, except the reverse name when no HELO differs from it',
     'macro expansion (spf_makro and below) is covered by correspondence only: the theorems hold for every expander, the memory safety of the real one was exercised under ASan, not proved',
-    'fixes/C11-*.diff are applied: the unfixed tree violates the term limit (F-C11-1) and crashes on F-C11-3..8 inputs (corpus/C11/spf.cases)',
+    'fixes/C11-*.diff are applied: the unfixed tree violates the term limit (F-C11-1), crashes on F-C11-3..8 inputs and lets an IPv6 client match IPv4 MX addresses (F-C11-9) (corpus/C11/spf.cases)',
+    'agreement with RFC 7208: the reference Spec/SpfRfc.v is hand-written from the RFC for macro-free records in its strict grammar; outside that fragment (syntax errors, macros, trailing dots, local or permanent resolver errors) results are not compared; five classes of deviation are known findings',
 ]
 
 def gen_cases(engine, rng, tier):
@@ -134,11 +136,11 @@ LEVEL_TEXT = ('Machine-checked Coq theorems over an executable model of check_ho
               '(all zones, cyclic include/redirect graphs, injected errors), every session and every macro expander: evaluation terminates; the result is one of the '
               'RFC 7208 results (or -1 only if a resolver call reported a local error); at most 10 DNS querying terms are evaluated and an 11th is refused with fail; '
               'spflookup(NULL) is unreachable; xmitstat.spfexp only ever holds bytes 32..127 (33..126 without ( ) \\ from record_bad_token) and the Received-SPF header '
-              'built from it is a well formed folded 7-bit header field. Agreement with the RFC 7208 algorithm and macro expansion are NOT proved (correspondence / tests only).')
+              'built from it is a well formed folded 7-bit header field. Agreement with the RFC 7208 algorithm is NOT proved: it is refuted in general (C11_rfc_agreement_refuted, five witnesses) and otherwise only tested against a reference evaluator; macro expansion is covered by correspondence only.')
 LEVEL_NOTE = ('Trusted: Coq kernel, translator regexes, extraction (ExtrOcamlBasic), harness with the resolver answered from the case, generator quality of the correspondence run. '
-              'The theorem is about the fixed code; seven fixes are proposed (F-C11-1, 3..8). Partial with respect to the property text: "agrees with the RFC 7208 check_host()" is '
-              'not established beyond what the correspondence of model and C plus the repo\'s own OpenSPF-suite tests give; known deviations are listed in reports/C11.md.')
+              'The theorem is about the fixed code; eight fixes are proposed (F-C11-1, 3..9). Partial with respect to the property text: "agrees with the RFC 7208 check_host()" is '
+              'tested, not proved: on zones inside the strict macro-free grammar the result of the C is compared with Spec/SpfRfc.v; deviations F-C11-2, -10, -11, -12, -13 are known findings.')
 TECHNIQUE = ('Coq: invariant (terms evaluated <= counter, <= limit, spfexp clean) carried through an open-recursion model (term loop structural on the record, recursion on fuel = limit + 2), '
              'byte-map lemmas for the two sanitisers, reflection over the translator-generated header pieces; model-vs-C differential run under ASan/UBSan with a zone-driven fake resolver; '
-             'boolean checker on C outputs (result set, clean bytes, lower bound on evaluated terms from the resolver calls)')
+             'boolean checker on C outputs (result set, clean bytes, lower bound on evaluated terms from the resolver calls, equality with an RFC 7208 reference evaluator on the strict macro-free fragment)')
 DESIGN_REF = 'DESIGN.md section 5, C11'
